@@ -433,6 +433,17 @@ def evalTextAnchor (c : Ctx) (e : Elem) : Except Err Elem :=
           pure (e.setDefaultAttr cs!"text-loc" t)
       | none => pure e
 
+/-- the numeric core of `eval_rel_position`: top-left corner of an element of size `tw × th`
+    placed beside `ref` in direction `rel` with `gap` -/
+def dirPlace (rel : DirSpec) (ref : BoundingBox) (tw th gap : Rat) : Rat × Rat :=
+  let (x, y) := ref.locspec rel.to_locspec
+  let (dx, dy) : Rat × Rat := match rel with
+    | .Above => (-tw / 2, -(th + gap))
+    | .Below => (-tw / 2, gap)
+    | .InFront => (gap, -th / 2)
+    | .Behind => (-(tw + gap), -th / 2)
+  (x + dx, y + dy)
+
 /-- `place_at` -/
 def placeAt (c : Ctx) (e : Elem) (x y : Rat) : Except Err Elem :=
   if e.name == cs!"use" then do
@@ -463,14 +474,9 @@ def evalRelPosition (c : Ctx) (e : Elem) : Except Err Elem :=
         | some rel =>
           let (tw, th) := (← e.size c).getD (0, 0)
           let gap ← (if rest.isEmpty then pure 0 else num (((attrSplit rest).head?).getD zstr))
-          let (x, y) := bbox.locspec rel.to_locspec
-          let (dx, dy) : Rat × Rat := match rel with
-            | .Above => (-tw / 2, -(th + gap))
-            | .Below => (-tw / 2, gap)
-            | .InFront => (gap, -th / 2)
-            | .Behind => (-(tw + gap), -th / 2)
+          let (px, py) := dirPlace rel bbox tw th gap
           let e := (e.popAttr cs!"xy").1
-          e.placeAt c (x + dx) (y + dy)
+          e.placeAt c px py
       | _, _ => pure e
 
 /-- `Position::from(&SvgElement)` -/
@@ -533,7 +539,8 @@ def setPositionAttrs (p : Position) (e : Elem) : Elem :=
   match p.to_bbox with
   | some bbox =>
     let n := e.name
-    if n == [] || n == cs!"rect" || n == cs!"use" || n == cs!"image" || n == cs!"svg"
+    if n == [] || n == cs!"rect" || n == cs!"box" || n == cs!"point" || n == cs!"use" || n == cs!"image"
+        || n == cs!"svg"
         || n == cs!"foreignObject" then
       let (x1, y1) := bbox.locspec LocSpec.TopLeft
       let e := if p.has_x_position then e.setAttr ['x'] (fstr (x1 + p.dx.getD 0)) else e
